@@ -182,3 +182,30 @@ func VH_C15_C4_ProofKeyEscaping() {
 	verifrt.Assert(verifrt.Iff(eq, k1 == k2), "C4:hash-equal-iff-proof-key-equal")
 	verifrt.Reach("C4:done")
 }
+
+// VH_C15_C5_ProofEntriesOfDifferentSize: two voted blocks (1-byte keys, either may sort first)
+// of which one carries two signatures and the other one; h2 differs from h1 in the signatures
+// only. Equal hashes imply equal signature sets per entry: every signature of the smaller
+// entry is bound too, whatever was serialised for the larger entry before it.
+func VH_C15_C5_ProofEntriesOfDifferentSize() {
+	models()
+	h1 := smallHeader()
+	h2 := h1
+	k1 := proofKey("k1", 1)
+	k2 := proofKey("k2", 1)
+	verifrt.Assume(k1 != k2)
+	mk := func(p string) gcrypto.SparseSignature {
+		return gcrypto.SparseSignature{KeyID: verifrt.Bytes(p+".id", 1), Sig: verifrt.Bytes(p+".sig", 1)}
+	}
+	a1 := []gcrypto.SparseSignature{mk("a1.0"), mk("a1.1")}
+	b1 := []gcrypto.SparseSignature{mk("b1.0")}
+	a2 := []gcrypto.SparseSignature{mk("a2.0"), mk("a2.1")}
+	b2 := []gcrypto.SparseSignature{mk("b2.0")}
+	h1.PrevCommitProof.Proofs = map[string][]gcrypto.SparseSignature{k1: a1, k2: b1}
+	h2.PrevCommitProof.Proofs = map[string][]gcrypto.SparseSignature{k1: a2, k2: b2}
+	eq := beq(blockHash(h1, "C5"), blockHash(h2, "C5"))
+	verifrt.Assert(verifrt.Implies(eq, sigsEq(a1, a2)), "C5:equal-hash-implies-equal-signatures-of-the-larger-entry")
+	verifrt.Assert(verifrt.Implies(eq, sigsEq(b1, b2)), "C5:equal-hash-implies-equal-signatures-of-the-smaller-entry")
+	verifrt.Assert(verifrt.Implies(verifrt.And(sigsEq(a1, a2), sigsEq(b1, b2)), eq), "C5:equal-signatures-hash-alike")
+	verifrt.Reach("C5:done")
+}
